@@ -194,6 +194,12 @@ CHECKS = {
         text="Every box of the alphabet is built on the real class: all sampled points must be contained (geometrically and by contains), the density must be 1/prod(widths) at points placed just inside every face and 0 just outside or far away, including degenerate limits that must be widened. For line search every below/above/at-threshold answer function reachable within K <= 7 and rep_lim <= 7 is executed: the result is positive, every probe in [0, result) stayed below, and the result is a probed-below offset or the resolution fallback. The posterior's unnormalised density and sample weights are decided on dyadic grids that hit the cut-off and region faces exactly, for direct construction, the real estimate_regions pipeline and small real ROMC runs.",
         note="Trusted: orthonormal rotation alphabet; documented widening rule; dyadic eta so offsets are exact; harness seeds the global generator used by ROMC.sample / fit_local_surrogate; local surrogates compared with a 1e-6 band around the cut-off; acceptance = solved and f_min < eps_filter. The eigenvector-axes clause follows the mechanism's docstring and the repo test. Not covered: parallelize=True, the BO surrogate path.",
         design_ref='4 C19'),
+    'C20': dict(
+        level='model_checking',
+        technique='bounded product enumeration of the real likelihood, transform and ratio functions against closed-form references from the papers, plus stateless DFS (vmc.explore) over all environment answer sequences (proposal step, simulation finiteness, round log-likelihood) of the real BSL step methods and the real sample() loop, compared with a reference Metropolis',
+        text='On explicit well-conditioned matrices (n <= 20, d <= 3) and observed-vector grids the standard (whitened, Warton-shrunk, glasso-at-0), Ghurye-Olkin and mean/variance-adjusted synthetic log-likelihoods equal their published formulas; for every tuple of bound-row types (<= 3 rows) the logit/log transform round-trips and its log-Jacobian equals the central-difference derivative of the back-transform; _get_mh_ratio equals posterior ratio x Jacobian ratio at the transformed points; for every answer sequence up to chain length 4 (5 for one configuration, 7 with <= 3 deviations) the chain, the stored log densities and the number of simulator invocations equal the reference, and outside-support proposals are recorded as rejections with zero simulations.',
+        note='Trusted: numpy/scipy linear algebra and special functions in the reference; scipy.stats uniform/truncnorm prior reference. Tolerances 1e-10 (unshrunk Gaussian, misspec) and 1e-8 (Ghurye-Olkin) relative to max(1,|value|), the exact bound of the 1e-5 Warton jitter; the +-700 exponent clip is accepted; u == prob ties unjudged (none occurred); the Ghurye-Olkin reference is self-tested unbiased (d=1 quadrature). Out of scope: the gamma slice sampler, glasso with penalty > 0, the semi-parametric estimator (not in the statement; runs only with --only lik-semiparam), ill-conditioned inputs.',
+        design_ref='4 C20'),
     'C15': dict(
         level='model_checking',
         technique='explicit-state BFS to closure over the real get_sub_seed cache states (all index requests in every '
